@@ -300,7 +300,13 @@ PROPS = {
                 "/ one heavy / distinct) x heights (small, uniform uint64, 2^63 and 2^64 boundaries) x (NodeCount,RandCount) "
                 "(live 30/15 in 60% of the cases, small and random groups otherwise) through the real SelectProducers; "
                 "distinct = distinct (op,result) lines; every line is evaluated on the real code and on the model, and "
-                "the monitors re-run the real code on a permuted copy of the input. ticker stream: ToTick/ToTime at tick "
+                "the monitors re-run the real code on a permuted copy of the input; every elected schedule is persisted the way "
+                "election.go does (storage.GenElectionData -> StoreElectionResultByHash) into a leveldb-backed consensus database with a "
+                "two-entry LRU and must come back identical through Marshal/Unmarshal, through a second storage.DB on the same database "
+                "(empty LRU = restarted node), through the storing instance after eviction, and after the leveldb directory was closed and "
+                "re-opened; the same for generated storage.Point values (0-300 pillars, boundary counters and heights, both point types); "
+                "at the end every election of the stream is repeated while three goroutines draw from and re-seed the process-wide "
+                "math/rand generator and must give the list computed when nothing else runs. ticker stream: ToTick/ToTime at tick "
                 "boundaries +-1 s, before the start, beyond the 292-year int64 range, generateProducers/genProofTime for live and "
                 "random (BlockTime,NodeCount). mverify stream: n rounds on a real mock chain (slots and whole ticks skipped, "
                 "delegations and balances changing); per round the valid next momentum and ~50 variants (every single-field "
@@ -309,7 +315,13 @@ PROPS = {
                 "GetMomentumBeforeTime at every timestamp +-1 s against the specification and the loop model, plus "
                 "GetMomentumProducer for all slots of three ticks on the caching instance and on a cold instance, and the schedule of "
                 "every tick re-computed in later rounds on a cold instance against the list first computed (a third of the rounds land "
-                "exactly on the first slot of a tick, so the next rounds compute a schedule while the frontier sits on its proof time). "
+                "exactly on the first slot of a tick, so the next rounds compute a schedule while the frontier sits on its proof time); the "
+                "cold instance runs each tick's election while other goroutines draw from the process-wide math/rand generator; restart "
+                "family: a third consensus instance lives on a PERSISTENT consensus database (leveldb directory opened as zenon.go does, "
+                "Init+Start, listening to the chain), answers every slot of this round's ticks and of up to four earlier ticks, is stopped, "
+                "its leveldb closed and re-opened on the same directory every round, and must then elect slot by slot what it elected before "
+                "the restart, what the live instance elects and what a cold instance computes (every fourth round also pillar weights, "
+                "EpochStats of epochs 0/1 and GetPillarDelegationsByEpoch(0) of the four instances). "
                 "contract stream (shared with C10): after every momentum of histories with pillar registrations, revocations and "
                 "delegations (also to pillars revoked later) ComputePillarDelegations, asked three times, against the sum of the ZNN "
                 "balances of the accounts whose delegation entry names each active pillar",
@@ -319,8 +331,15 @@ PROPS = {
                    "before_time_subsecond_hangs); ToTick is modelled for whole-second instants only (Duration.Seconds() is a "
                    "float; the last nanosecond of a tick rounds up for chains older than 194 days - counted by the ticker "
                    "stream, not judged); the ticker theorems hold within 292 years of genesis (int64 ns Duration; negative "
-                   "witness ticker_wraps_after_292_years); ComputePillarDelegations (weights from balances) is taken from the real code; schedule equality after "
-                   "restart / reorganisation across nodes is left to the sync stream (C06/C16)",
+                   "witness ticker_wraps_after_292_years); ComputePillarDelegations (weights from balances) is taken from the real code; persistence of the "
+                   "consensus store (ElectionData / Point through protobuf and leveldb) and the restart of a node on its consensus database are "
+                   "model-free monitors (election and mverify streams), not theorems - the model's cache lemma cached_election_eq_recomputed takes "
+                   "'every cached entry is what was computed for its key' as its hypothesis, which is exactly what those monitors test for entries "
+                   "read back from disk; a flushed LRU is exercised at the storage layer (two-entry LRU) and by the restart, not by filling the "
+                   "2016-entry LRU of a node; independence from the process-wide math/rand generator is the regenerated fact "
+                   "election_uses_no_process_wide_randomness (AST: no reference to a package-level math/rand, math/rand/v2 or crypto/rand function "
+                   "in vm, verifier, chain, consensus, common/db, common/types) plus the two noise monitors, which depend on goroutine "
+                   "interleaving; schedule equality after a reorganisation across nodes is left to the sync stream (C06/C16)",
         "assumptions": ["math/rand.Perm returns a permutation of 0..n-1 (checked by the driver on every shipped oracle value)",
                         "sort.Sort returns a sorted permutation of its input"],
     },
@@ -418,14 +437,40 @@ PROPS = {
     },
     "C18": {
         "module": "ZenonVerif.Props.C18",
-        "streams": [S("paging", 30000, 2000000), S("rpc", 6, 300, timeout=7200), S("rpcserver", 1500, 200000)],
+        "streams": [S("paging", 30000, 2000000), S("rpc", 6, 300, timeout=7200), S("rpcserver", 1000, 60000, timeout=7200)],
         "rule": "paging stream: (index,count,len) over the full uint32 range with boundary bias + complete page sweeps of "
                 "random lists; rpc stream: the real LedgerApi called in-process on generated chains (momentums/account blocks by page "
                 "and by height, unreceived blocks) with indices, sizes, heights, counts over boundary values and the full integer "
                 "range for known, unknown and contract addresses, each list printed as heights for the model and compared by "
-                "monitors with the stores; complete page sweeps; JSON round trip of every returned block; distinct = distinct lines",
-        "partial": "the ~80 embedded-contract getters and the robustness of the JSON-RPC server against hostile byte strings "
-                   "are not modelled (runtime behaviour); the ledger API is covered in-process on generated chains",
+                "monitors with the stores; complete page sweeps; JSON round trip of every returned block; pager family (every sixth "
+                "history): a ledger on which every pageable collection spans several small pages (one owner with 5-9 tokens next to other "
+                "owners, 5-8 stakes / fusions / liquidity stakes of one address, accelerator projects, 5 sentinels, 5 pillars, 7-9 sporks, "
+                "3 bridge networks, 7-10 wrap and 6-8 unwrap requests to several destinations, 6 reward epochs, unconfirmed and unreceived "
+                "blocks), then EVERY method of EVERY service the node registers (rpc.GetApis ledger+embedded, found by reflection: last two "
+                "parameters uint32, answer of {count, list} shape - 27 getters) with every combination of leading arguments from a catalogue, "
+                "page sizes 1, 2, 3, 5, max, max+1, all page indexes to past the end and ten index/size pairs whose product passes 2^32: "
+                "count identical on every page and equal to the size of the collection (definition.* readers on the store for 21 of the "
+                "argument combinations, the page of maximum size for all), pages concatenated = the collection (each element once, one "
+                "order), pages past the end empty, no page longer than its size; every page is printed (position of its first element, length, "
+                "count) for the Lean paging model getRange; page-limit scenario: > 1024 accelerator projects, every pager asked for sizes "
+                "above the limit must refuse or return at most 1024 elements. rpcserver stream: the real JSON-RPC server in a child "
+                "process, n requests (mutated valid calls, garbage, and a directed corpus of single / batch hostility: every JSON value kind "
+                "as the only element and before / after / between valid calls, empty batch, notifications-only, duplicate ids, batches of up "
+                "to 1000, junk-only, nested and 5000-deep elements, invalid UTF-8, truncated and trailing garbage, response-shaped and "
+                "subscription-shaped messages) sent over EVERY transport: the HTTP handler in-process, a real net/http server, the WebSocket "
+                "handler, a unix-socket listener (ServeListener = the IPC endpoint) and ServeCodec on a pipe - the directed corpus over all "
+                "five for each body; per request a model-free monitor derived from the request alone (JSON-RPC 2.0): exactly one well-formed "
+                "response object per message that is not a notification / response, ids echoed in order, nothing for notifications, no HTTP "
+                "error status for a JSON request below the size limit, no dropped connection for well-formed JSON; on stream transports a "
+                "sentinel call follows every request on the same connection and must be answered with the frontier; the child process must "
+                "survive (the request being served when it dies is reported); distinct = distinct lines",
+        "partial": "the robustness of the JSON-RPC server is runtime behaviour (monitors, no model); of the embedded getters the paged "
+                   "ones are covered generically (reflection) for totals / order / exactly-once / bounds and compared with the Lean "
+                   "getRange per page, the content of the elements is compared with the stores only for the ledger API; collections larger "
+                   "than the page limit are reached for accelerator projects only (known finding F23: AcceleratorApi.GetAll is unbounded); "
+                   "index*size beyond 2^32 wraps in getFrontierRewardByPage / GetPillarEpochHistory (known finding F2b); malformed text on a "
+                   "stream transport may be answered by closing the connection (the unchanged server does so for truncated WebSocket "
+                   "messages) - only survival and the next connection are judged there",
     },
     "C14": {
         "module": "ZenonVerif.Props.C14",
